@@ -1,0 +1,14 @@
+//go:build verif
+
+package limitscanner
+
+// VerifCheckEvery, when > 0, overrides Options.LimitDurationCheckEvery so that a
+// slice is a handful of records (verification builds only).
+var VerifCheckEvery int
+
+func verifOptions(opt Options) Options {
+	if VerifCheckEvery > 0 {
+		opt.LimitDurationCheckEvery = VerifCheckEvery
+	}
+	return opt
+}
